@@ -414,7 +414,8 @@ fn main() {
             for (i, c) in programs().into_iter().enumerate() {
                 if i % nsh != shard { continue; }
                 // every schedule with at most one preemption (complete), then the deeper bound (first maxexecs, depth-first)
-                if bound > 1 { run_any(&c, &RunMode::Explore(1, 100000), &mut out); }
+                let ops = c.lmodes.len() + c.nprogs.iter().map(|p| p.len()).sum::<usize>();
+                if bound > 1 { run_any(&c, &RunMode::Explore(1, if ops <= 4 || bound > 2 { 100000 } else { maxexecs }), &mut out); }
                 run_any(&c, &RunMode::Explore(bound, maxexecs), &mut out);
             }
         }
